@@ -1,6 +1,6 @@
 (* C17 — JSON report codec and text forms of stream values round-trip.
    Only statements; proofs are `exact <lemma>` into proofs/TextProofs.v. *)
-From DS Require Import Base RepoConstants Decimal StreamValue TextForms TextProofs.
+From DS Require Import Base RepoConstants Decimal StreamValue TextForms JsonReportBytes TextProofs JsonBytesProofs.
 
 (* the two regular expressions in /repo are the modelled ones (regenerated from the source on every run) *)
 Example C17_gen_regexes : quote_regex_found = true /\ tsv_regex_found = true /\
@@ -32,6 +32,16 @@ Theorem C17_json_report_roundtrip : forall r,
   exists j r', json_encode r = Ok j /\ json_decode j = Some (Ok r') /\ freport_equiv r r' = true.
 Proof. exact json_report_roundtrip. Qed.
 Print Assumptions C17_json_report_roundtrip.
+
+(* ... and at BYTE level: json_report_bytes is what json.Marshal writes for the encoder's struct (compared byte for byte
+   with Go on every run); reading those bytes back gives the same JSON document, which decodes to the same report *)
+Theorem C17_json_report_roundtrip_bytes : forall r,
+  length (f_digest r) = 32%nat -> Forall (fun b => 0 <= b < 256) (f_digest r) -> f_seq r <> 0 -> all_present (f_values r) ->
+  0 <= f_seq r -> 0 <= f_chan r -> 0 <= f_va r -> 0 <= f_ts r ->
+  exists j r', json_encode r = Ok j /\ json_report_parse (json_report_bytes j) = Some j /\
+               json_decode j = Some (Ok r') /\ freport_equiv r r' = true.
+Proof. exact json_report_bytes_roundtrip. Qed.
+Print Assumptions C17_json_report_roundtrip_bytes.
 
 (* packed (digest, sequence number, report, signatures) tuple *)
 Theorem C17_pack_unpack_roundtrip : forall t, length (pt_digest t) = 32%nat -> Forall (fun b => 0 <= b < 256) (pt_digest t) ->
